@@ -10,6 +10,7 @@ import (
 	"path/filepath"
 	"strings"
 	"sync"
+	"time"
 
 	"verifh/cases"
 	"verifh/model"
@@ -163,6 +164,46 @@ func checkC17(c *Ctx) {
 		}
 		os.RemoveAll(base)
 	}
+	// a history large enough (1 500 trees + commits) that the feeder of the second pipeline is still
+	// requesting objects while the consumer already reads answers: the goroutines really overlap, so
+	// unsynchronised sharing between them is visible to the race detector, and bufio flushes happen mid-run
+	{
+		sc := largeCase(500)
+		sc.ID = "c17-large"
+		base, _ := os.MkdirTemp(c.Scratch, "large-")
+		repoDir := filepath.Join(base, "r")
+		if _, err := materialiseCase(repoDir, &sc); err != nil {
+			Infra("large repository: %v", err)
+		}
+		nrep := 4
+		if !quick(c) {
+			nrep = 24
+		}
+		first := ""
+		for rep := 0; rep < nrep; rep++ {
+			res := race.Run(run.Opt{Dir: repoDir, Args: []string{"--json", "--no-progress"}, Home: base, Timeout: 120 * time.Second,
+				Env: []string{fmt.Sprintf("GOMAXPROCS=%d", []int{4, 1, 16, 2}[rep%4]), "GORACE=halt_on_error=0"}})
+			total++
+			c.Distinct(fmt.Sprintf("large/%d", rep))
+			why := ""
+			switch {
+			case strings.Contains(string(res.Stderr), "DATA RACE") || res.Exit == 66:
+				why = "data_race_reported"
+			case res.Exit != 0:
+				why = "no_report"
+			case first == "":
+				first = string(res.Stdout)
+			case string(res.Stdout) != first:
+				why = "stdout_not_deterministic"
+			}
+			if why != "" {
+				c.AddViolation(Violation{Predicate: why, Spec: "CliRun / determinism (large history)", Kind: "large",
+					Input: map[string]interface{}{"n": 500}, Observed: map[string]interface{}{"exit": res.Exit, "stderr": tail(string(res.Stderr), 14)}})
+				break
+			}
+		}
+		os.RemoveAll(base)
+	}
 	c.CountEval(int64(total))
 	// traces of racy-build runs on generated repositories are behaviours of Scan
 	var cs []cases.ScanCase
@@ -206,4 +247,5 @@ func init() {
 	checks["C17"] = checkC17
 	replays["det"] = replayDet
 	replays["ties"] = replayTies
+	replays["large"] = replayLarge
 }
